@@ -52,6 +52,11 @@ fn zone_list() -> &'static Vec<Arc<Zone>> {
         for _ in 0..12 {
             v.extend(zones::posix_zones().iter().cloned());
         }
+        // hostile rules (a gap that reaches past the next transition): only the internal
+        // consistency clauses apply to them (see `invariant`)
+        for _ in 0..20 {
+            v.extend(zones::posix_adversarial_zones().iter().cloned());
+        }
         v
     })
 }
@@ -176,6 +181,10 @@ fn invariant(z: &Zoned, zone: &Zone, step: &str) -> CaseResult {
     ensure!(z.offset() == own, "offset-vs-own-lookup", "{step}: {z} stores offset {} but its time zone assigns {own} to its instant", z.offset());
     let shown = z.offset().to_datetime(ts);
     ensure!(z.datetime() == shown, "civil-vs-offset", "{step}: {z} stores civil {} but instant+offset gives {shown}", z.datetime());
+    ensure!(z.time_zone() == &zone.tz, "zone-tracking", "{step}: the value's time zone is not the one the history expects ({})", zone.label);
+    if zones::POSIX_ADVERSARIAL.iter().any(|s| zone.label.strip_prefix("posix:") == Some(*s)) {
+        return Ok(());
+    }
     // reference
     let ns = ts.as_nanosecond();
     let (loc, off) = rz::local_of(&zone.rz, ns);
